@@ -153,6 +153,7 @@ func Check(p Property, o CheckOpts) int {
 			args = append(args, "-deadline", fmt.Sprint(deadline.UnixNano()))
 		}
 		cmd := exec.Command(self, args...)
+		cmd.Env = append(os.Environ(), "VERIF_SITES="+o.SitesJSON)
 		cmd.Stderr = os.Stderr
 		if err := cmd.Start(); err != nil {
 			fmt.Fprintln(os.Stderr, "infra: start worker:", err)
